@@ -147,13 +147,13 @@ def apply_closure(F, clo, arg):
 def closure_true_facts(F, clo):
     """Guard literals that hold whenever the closure literal `clo` returns true (for `any(|x| a && b)`: both a and b), with captured variables
     replaced by the captured expressions; the closure's own parameter stays ('param', name).  None if the closure has more than one way to return true."""
-    from ..mir import phi_table
+    from ..mir import value_table
     cb = F.closure(clo[1])
     if cb is None:
         return None
     R = Resolver(cb)
     alts = []
-    tab = phi_table(cb, R, 0)
+    tab = value_table(cb, R, 0)
     if not tab:
         return None
     for v, lits, bb in tab:
@@ -732,13 +732,12 @@ def check_edge_feasible_table(ctx, rule):
     R = Resolver(b)
     n = 0
     ret_defs = []
-    for i, j, st in b.stmts():
-        if st['k'] == 'assign' and st['place']['local'] == 0 and not st['place']['proj']:
-            ret_defs.append((i, R.rvalue(st['rv'], i, j), st['span']))
-    for i, t in b.calls():
-        if t['dest']['local'] == 0 and not t['dest']['proj']:
-            ret_defs.append((i, R.call_expr(t, i), t['span']))
-    for (i, v, span_) in ret_defs:
+    from ..mir import value_table
+    # every way the result is produced, with the guards under which it is (a value handed back by a grafted helper is expanded into the
+    # helper's own alternatives)
+    for v, lits_, i in value_table(b, R, 0):
+        ret_defs.append((i, v, b.where(i), lits_))
+    for (i, v, span_, lits_v) in ret_defs:
         if True:
             st = {'span': span_}
             if v == ('const', True):
@@ -748,7 +747,7 @@ def check_edge_feasible_table(ctx, rule):
             if v != ('const', False):
                 ctx.bad(rule, site + ':computed', 'is_edge_feasible returns a computed value (%s); every "false" must be an explicit Infeasible arm' % fmt(v)[:100], st['span'])
                 continue
-            lits = literals(b, R, i)
+            lits = lits_v
             good = None
             for l in lits:
                 if l[0] == 'is' and l[2] == frozenset(['Infeasible']):
